@@ -161,7 +161,7 @@ def model_step(T, algo, P, rec):
     env["x"] = [Fr(0)] * n
     cK, cC, cM = [TS.ev(c, env) for c in r["coefs"]]
     rhs = TS.ev(r["rhs"], env)
-    A = [[cK * env["K"][i][j] + cC * env["C"][i][j] + cM * env["M"][i][j] for j in range(n)] for i in range(n)]
+    A = TS.ev(r["sysop"], env)          # the matrix _Solver_Apply_Dirichlet assembles
     x = [Fr(0)] * n
     if algo != "euler_explicit":          # _Solver_Apply_Dirichlet: the unknown a^n is zero on constrained dofs
         for d, val in zip(rec["dir_dofs"], rec["dir_vals"]):
@@ -251,7 +251,10 @@ def judge(ctx, T, sc, res, tag):
             what = "%s step %d (%s %s): model and implementation differ on %s by %.3e relative" % (tag, n, algo, {k: st[k] for k in st if k != "algo"}, worst, diffs[worst])
             ctx.obligation("corr:%s:%d" % (tag, n), False, what)
             if not bad:
-                ctx.violation("corr:%s:%s" % (algo, worst), what + " (the documented relations hold on the implementation's output, so the model/translation is out of step)",
+                why = (" (Newton path: the incremental solve and the direct system of _Solver_Apply_Neumann/_Solver_Get_K_C_M_coefs disagree; the documented "
+                       "relations hold on the Newton result)") if sc.get("newton") else \
+                      " (the documented relations hold on the implementation's output, so the model/translation is out of step)"
+                ctx.violation("corr:%s:%s%s" % (algo, worst, ":newton-vs-direct" if sc.get("newton") else ""), what + why,
                               replay_of(one_step_scenario(sc, res, n)), found_input=False)
             return
     ctx.obligation("corr:%s" % tag, not bad, "; ".join(bad[:2]))
@@ -297,7 +300,10 @@ def correspondence(ctx, T):
         scs.append(("mixed-%d" % i, gen_scenario(rng, "elastic", 4 if quick else 6)))
     for i in range(3 if quick else 12):
         scs.append(("thermal-%d" % i, gen_scenario(rng, "thermal", 3)))
-    for i in range(4 if quick else 16):
+    for a in ALGOS:
+        if a != "euler_explicit":      # the setter refuses euler_explicit for nonlinear simulations
+            scs.append(("newton-%s" % a, gen_scenario(rng, "elastic", 2, newton=True, algos=[a])))
+    for i in range(2 if quick else 16):
         scs.append(("newton-%d" % i, gen_scenario(rng, "elastic", 3, newton=True)))
     for i, sc in enumerate(energy_scenarios(rng, ctx.tier)):
         scs.append(("energy-%d" % i, sc))
@@ -377,6 +383,8 @@ def tree_predicates(T, algo, P, env):
             a0, a1 = (e["x"], e2["x"]) if (algo == "euler_explicit" and nm == "coefM") else ([Fr(0)] * 2, [Fr(0)] * 2)
         if [p - q for p, q in zip(a1, a0)] != [c * t for t in d]:
             fails.append("coefs_are_derivatives[%s]" % nm)
+    if TS.ev(r["sysop"], e) != [[cK * a + cC * b + cM * c for a, b, c in zip(ra, rb, rc)] for ra, rb, rc in zip(e["K"], e["C"], e["M"])]:
+        fails.append("sysop_is_weighted_sum")
     # equation of motion identity
     at = ev[2] if ev[2] is not None else (e["x"] if algo == "euler_explicit" else [Fr(0)] * 2)
     lhs = [a + b + c for a, b, c in zip(O.matvec(e["K"], ev[0]), O.matvec(e["C"], ev[1]), O.matvec(e["M"], at))]
@@ -394,6 +402,25 @@ def update_residuals_formal(algo, P, prev, new):
     if algo == "hht_newmark":
         return O.update_residuals("newmark", P, prev, new)
     return O.update_residuals(algo, P, prev, new)
+
+
+DOC_RANGE = {a: (lambda dt, al: dt > 0 and 0 <= al < 1) for a in HYP}
+DOC_RANGE["hht_newmark"] = lambda dt, al: dt > 0 and 0 <= al <= Fr(1, 3)
+DOC_RANGE["parabolic"] = lambda dt, al: dt > 0
+
+
+def range_witness(T, algo):
+    """a (dt, alpha) the setter accepts although the documentation excludes it, or the converse"""
+    p = ('true',)
+    for q in T["schemes"][algo]["asserts"]:
+        p = q if p == ('true',) else ('and', p, q)
+    for dt in (Fr(1, 4), Fr(0), Fr(-1, 4)):
+        for al in (Fr(0), Fr(1, 8), Fr(1, 3), Fr(3, 8), Fr(1, 2), Fr(7, 8), Fr(1), Fr(9, 8), Fr(-1, 8)):
+            env = {"dt": dt, "alpha": al, "beta": Fr(1, 4), "gamma": Fr(1, 2)}
+            acc = TS.ev_prop(p, env)
+            if acc != DOC_RANGE[algo](dt, al):
+                return {"kind": "range", "algo": algo, "dt": float(dt), "alpha": float(al), "expect_accept": bool(DOC_RANGE[algo](dt, al))}
+    return None
 
 
 def search(ctx, T, algos, tries=200):
@@ -550,6 +577,13 @@ def run(ctx):
             algos = [a for a in ALGOS if "C05_%s.v" % a in broken] or list(ALGOS)
             found = search(ctx, T, algos)
             reported = False
+            for algo in ALGOS:
+                w = range_witness(T, algo)
+                if w:
+                    rep, out = confirm_on_impl(ctx, w, "range_" + algo)
+                    ctx.violation("range:%s" % algo, "the setter %s (dt=%s, alpha=%s) for %s although the documented range says the opposite" % (
+                        "rejects" if w["expect_accept"] else "accepts", w["dt"], w["alpha"], algo), replay_of(w), found_input=rep)
+                    reported = True
             for algo, P, env, fails in found:
                 sc = two_dof_scenario(algo, P, env)
                 rep, out = confirm_on_impl(ctx, sc, algo)
@@ -567,6 +601,15 @@ def run(ctx):
                               "in 200 tries per algorithm (a rewrite the proof script does not follow?)" % f,
                               {"obligation": f, "log": results[f].log[-3000:] if f in results else ""}, found_input=False)
     correspondence(ctx, T)
+    if ctx.tier == "thorough" and T is not None and proof_ok:
+        rc, out, err = common.sh(["coqchk", "-silent", "-o"] + common.COQ_Q + ["-Q", ctx.build, "EFP", "EFP.C05_examples", "EFP.C05_relations"],
+                                 cwd=ctx.build, timeout=900)
+        txt = out + err
+        clean = rc == 0 and all(("%s: <none>" % k) in txt for k in ("relying on type-in-type", "relying on unsafe (co)fixpoints", "positivity is assumed"))
+        ctx.obligation("thorough:coqchk", clean, txt[-600:])
+        ctx.checker_cmds.append("coqchk -silent -o ... EFP.C05_examples EFP.C05_relations")
+        if not clean:
+            ctx.violation("coqchk", "coqchk rejects the compiled C05 theory", {"log": txt[-3000:]}, found_input=False)
     if ctx.tier == "thorough" and T is not None:
         found = search(ctx, T, ALGOS, tries=400)
         ctx.obligation("thorough:python-exact-sweep", not found or not proof_ok, "400 random rational points per algorithm, all theorem statements, exact")
